@@ -340,7 +340,7 @@ def seeded_sampling(sx, kind, n, k):
 
 def jobs(tier):
     N = 3 if tier == 'quick' else 4
-    o = dict(timeout_ms=15000, budget_s=(300 if tier == 'quick' else 600))
+    o = dict(timeout_ms=15000, budget_s=(120 if tier == 'quick' else 600))
     for kind in KINDS:
         for n in range(1, N + 1):
             if kind == 'det' and n > 1:
